@@ -148,6 +148,20 @@ def exact_product_pairs(targets=(2**63 - 1, 2**63, 2**62, 2**64 - 1, 2**79 - 655
             if d <= q and d < 2**63 and q < 2**63: out.append((d, q))
     return out
 
+def shifted_quotient_probes(consts):
+    """x with x*c/2^16 (+- 2^16) equal to a power of two or to a small multiple of 2^32, for every constant c of the source:
+    the arguments at which an intermediate product inside a function lands on a special value"""
+    out = set()
+    for c in consts:
+        if not (256 <= c < 2**40): continue
+        targets = [(1 << k) + o for k in range(17, 62) for o in (0, -65536, 65536)] + [(m_ << 32) + o for m_ in range(1, 40) for o in (0, -65536, 65536)]
+        for t in targets:
+            if t <= 0: continue
+            x = (t << 16) // c
+            for d in (-1, 0, 1, 2):
+                if 0 <= x + d < 2**62: out.add(x + d)
+    return sorted(out)
+
 def period_limit_probes(period, lo=-320, hi=320):
     """arguments just below / above the multiples of `period` that sit next to a power of two (where a fast path of a
     range reduction ends): m*period + j for the two multiples around each 2^k, k = 20..62, and every j in [lo, hi]"""
@@ -239,7 +253,8 @@ def relation_lines(lines, rng, cap=9000):
         if len(p) == 3 and not p[0].startswith(("re_", "lit_")): by_fn.setdefault(p[0], []).append(p)
     out = []
     def rel(v):
-        return [v, -v, v + 1, v - 1, -v + 1, -v - 1, v * 65536, -v * 65536, v // 65536, -(v // 65536), ~v, v ^ 0x1ffffffff, v + (1 << 32), v - (1 << 32), 2 * v, v // 2]
+        return [v, -v, v + 1, v - 1, -v + 1, -v - 1, v * 65536, -v * 65536, v // 65536, -(v // 65536), ~v, v ^ 0x1ffffffff, v + (1 << 32), v - (1 << 32), 2 * v, v // 2] + \
+               [v ^ (1 << k_) for k_ in rng.sample(range(63), 6)] + [v + (1 << k_) for k_ in rng.sample(range(63), 3)]
     for h, ps in by_fn.items():
         fn, _, tag = h.partition(":")
         if tag in ("f32", "f64", "dflt") or fn not in REL_OK: continue
